@@ -20,6 +20,7 @@ type Mutant struct {
 	Expect []string `json:"expect"` // substrings of obligation names expected to fail (informational)
 	Note   string   `json:"note,omitempty"`
 	Harmless bool   `json:"harmless,omitempty"` // a behaviour-preserving edit: must NOT raise a VIOLATION (false-alarm canary)
+	UndecidedOK bool `json:"undecided_ok,omitempty"` // the edit restructures the function so that its contract no longer fits (new loop, vanished locals): "not decided" (exit 2) is the expected, honest answer; silence would be the miss
 }
 
 type MutantResult struct {
@@ -75,6 +76,14 @@ func runMutants(repo, verif, prop string, known *KnownFile, timeoutS int) []Muta
 			r.Failed = append(r.Failed, "UNDECIDED:"+e)
 		}
 		r.Caught = len(res.Violations) > 0
+		if m.UndecidedOK && !r.Caught {
+			for _, e := range res.ToolErrors {
+				if strings.Contains(e, "not decided") {
+					r.Caught = true
+					r.Err = "undecided (expected: the contract does not fit the rewritten function)"
+				}
+			}
+		}
 		if m.Harmless {
 			// canary: "caught" here means the check stayed quiet
 			r.Caught = len(res.Violations) == 0
